@@ -43,6 +43,8 @@ const (
 	c10KWrite   = 'W' // Write*Body(slice)
 	c10KBytesR  = 'L' // Read*BodyFrom(*bytes.Reader)   - has Len()
 	c10KStringR = 'S' // Read*BodyFrom(*strings.Reader) - has Len()
+	c10KPartB   = 'P' // Read*BodyFrom(*bytes.Reader part of which the caller has consumed already: Len() < Size())
+	c10KPartS   = 'Q' // Read*BodyFrom(*strings.Reader, likewise)
 	c10KNoLen   = 'N' // Read*BodyFrom(reader hiding Len())
 	c10KOneByte = 'O' // ... hiding Len(), one byte per Read
 	c10KDataEOF = 'E' // ... hiding Len(), last data returned together with io.EOF
@@ -347,6 +349,20 @@ func c10ExecTx(waf coraza.WAF, cfg *c10Cfg, body []byte, sizes []int, kinds []by
 				rd = bytes.NewReader(chunk)
 			case c10KStringR:
 				rd = strings.NewReader(string(chunk))
+			case c10KPartB, c10KPartS:
+				// a connector that peeked at the first bytes hands over a reader whose original size is larger than
+				// what is left in it: only what is left counts
+				skip := 1 + len(chunk) + i%5
+				pre := bytes.Repeat([]byte{0x7e}, skip)
+				if kinds[i] == c10KPartB {
+					br := bytes.NewReader(append(pre, chunk...))
+					br.Seek(int64(skip), io.SeekStart)
+					rd = br
+				} else {
+					sr := strings.NewReader(string(pre) + string(chunk))
+					sr.Seek(int64(skip), io.SeekStart)
+					rd = sr
+				}
 			case c10KOneByte:
 				rd = c10HideLen{iotest.OneByteReader(bytes.NewReader(chunk))}
 			case c10KDataEOF:
@@ -1054,10 +1070,8 @@ func (r *c10Runner) runSmall(u c10Unit) {
 				case 0:
 					kinds[i] = c10KWrite
 				case 1:
-					kinds[i] = c10KBytesR
-					if i%2 == 1 {
-						kinds[i] = c10KStringR
-					}
+					// the readers that know their length rotate through four forms
+					kinds[i] = []byte{c10KBytesR, c10KStringR, c10KPartB, c10KPartS}[(i+a/3)%4]
 				default:
 					kinds[i] = c10KNoLen
 				}
@@ -1219,7 +1233,7 @@ func (r *c10Runner) runLarge(u c10Unit) {
 		}
 		kinds := make([]byte, len(sizes))
 		for j, s := range sizes {
-			ks := []byte{c10KWrite, c10KWrite, c10KBytesR, c10KStringR, c10KNoLen, c10KNoLen, c10KDataEOF}
+			ks := []byte{c10KWrite, c10KWrite, c10KBytesR, c10KStringR, c10KPartB, c10KPartS, c10KNoLen, c10KNoLen, c10KDataEOF}
 			if s <= 2048 {
 				ks = append(ks, c10KOneByte)
 			}
@@ -1375,7 +1389,7 @@ func c10Replay(w *fw.W, raw json.RawMessage) {
 func init() {
 	fw.Register(&fw.Prop{
 		ID: "C10", Level: "exploration",
-		Rule: "small scope (exhaustive): every limit L (quick 1-6, thorough 1-7 plus L=8 with in-memory limit in {1,4,7,8}), every in-memory limit M in 1..L (request side), every body size n in 0..min(L+3, quick 8 / thorough 10), every composition of n into chunks, every assignment of {Write*Body, Read*BodyFrom(reader with Len), Read*BodyFrom(reader hiding Len)} to the chunks, both limit actions, request and response side; the observation mode (recording body processor / RAW / URLENCODED / RESPONSE_BODY) rotates over the cases. Direct BodyBuffer round trips (verifapi.NewBodyBuffer): every L, M<=L, n<=L+2 and composition, read back through interleaved independent readers, Reset, reuse. Large scope (sampled): limits 8 B - 1 MiB, random bytes (all 256 values), sizes and cuts placed at and next to M and L, six entry-point kinds, limits set by directives or coraza.WAFConfig. A case is non-trivial when a spill file was created, the body was refused, or partial processing was triggered (bare buffer: spill or refused write); distinct by structural hash of (configuration, body, chunk sizes, entry points).",
+		Rule: "small scope (exhaustive): every limit L (quick 1-6, thorough 1-7 plus L=8 with in-memory limit in {1,4,7,8}), every in-memory limit M in 1..L (request side), every body size n in 0..min(L+3, quick 8 / thorough 10), every composition of n into chunks, every assignment of {Write*Body, Read*BodyFrom(reader with Len - rotating over *bytes.Reader, *strings.Reader and the same two partly consumed by the caller beforehand, i.e. Len() < Size()), Read*BodyFrom(reader hiding Len)} to the chunks, both limit actions, request and response side; the observation mode (recording body processor / RAW / URLENCODED / RESPONSE_BODY) rotates over the cases. Direct BodyBuffer round trips (verifapi.NewBodyBuffer): every L, M<=L, n<=L+2 and composition, read back through interleaved independent readers, Reset, reuse. Large scope (sampled): limits 8 B - 1 MiB, random bytes (all 256 values), sizes and cuts placed at and next to M and L, eight entry-point kinds, limits set by directives or coraza.WAFConfig. A case is non-trivial when a spill file was created, the body was refused, or partial processing was triggered (bare buffer: spill or refused write); distinct by structural hash of (configuration, body, chunk sizes, entry points).",
 		Assumptions: []string{
 			"oracle = cumulative-size model: ProcessPartial or limit not reached -> stored bytes, processor input and body variable are exactly the first min(n, L) supplied bytes and the body phase runs once; Reject -> interruption (413 request / 500 response) at the first call whose cumulative size is >= L and at no other call, stored bytes are a prefix of the supplied bytes of length between the accepted bytes and L",
 			"under Reject the driver stops writing at the first interruption (connector behaviour); the byte count returned by write calls is never judged; how much of the refusing call is stored (nothing for slices and sized readers, up to the limit for unsized readers) is not pinned and not judged beyond 'prefix, <= limit'",
